@@ -21,7 +21,7 @@ import (
 func init() {
 	p := Registry["C11"]
 	p.Roles["keyshapes"] = Role{N: func(t string) int { return tierN(t, 4, 16) }, Case: c11KeyShapes}
-	p.Rule += " Role keyshapes: one call script (Get and GetReader of a key never written, Delete of it, Set, Get, GetKeys, then inside a transaction of each level Get, Delete, Get, Set, Get and Commit, then Delete and the Get of the deleted key, a second Commit) run with the same key through the inline client and through the gRPC client against the real server, call by call comparison of value and sentinel class, over a grid of valid UTF-8 keys: rune widths 1-4 bytes after an ASCII prefix of 0-3 bytes, total lengths around 16, 32, 64, 128, 256, 512, 1024, 4096, 65536 bytes (whatever byte offset a layer may cut, quote or pad a key at, some key has a rune straddling it). Half of the cases open the gRPC handle with a context that is done as soon as Open has returned."
+	p.Rule += " Role keyshapes: one call script (Get and GetReader of a key never written, Delete of it, Set, Get, GetKeys, then inside a transaction of each level Get, Delete, Get, Set, Get and Commit, then Delete and the Get of the deleted key, a second Commit; a Rollback and a Commit first attempted with a context that is already done and then repeated with a live one: afterwards the handle is finished and the data rolled back / committed for both clients) run with the same key through the inline client and through the gRPC client against the real server, call by call comparison of value and sentinel class, over a grid of valid UTF-8 keys: rune widths 1-4 bytes after an ASCII prefix of 0-3 bytes, total lengths around 16, 32, 64, 128, 256, 512, 1024, 4096, 65536 bytes (whatever byte offset a layer may cut, quote or pad a key at, some key has a rune straddling it). Half of the cases open the gRPC handle with a context that is done as soon as Open has returned."
 }
 
 // c11KeyGrid returns valid UTF-8 keys whose runes straddle every small byte offset.
@@ -114,6 +114,30 @@ func c11KeyShapes(tier string, seed int64, idx int, scratch string) rt.CaseResul
 			add("commit-again", nil, tx.Commit(ctxBg))
 			b, err = tx.Get(ctxBg, key)
 			add("tx-get-after-commit", b, err)
+		}
+		// ends first attempted with a context that is already done (what the call itself returns
+		// then differs by design: the inline client does not look at the context, the gRPC client
+		// fails before it reaches the server - not compared), then repeated with a live one
+		dead, cancel := context.WithCancel(ctxBg)
+		cancel()
+		if t2, err := db.Begin(ctxBg, verif.IsoLevel(level)); err == nil {
+			add("tx2-set", nil, t2.Set(ctxBg, key+"-rb", v1))
+			t2.Rollback(dead)
+			add("tx2-rollback-retried", nil, t2.Rollback(ctxBg))
+			b, err = t2.Get(ctxBg, key+"-rb")
+			add("tx2-get-after-rollback", b, err)
+			add("tx2-set-after-rollback", nil, t2.Set(ctxBg, key+"-rb", v1))
+			b, err = db.Get(ctxBg, key+"-rb")
+			add("get-rolled-back", b, err)
+		}
+		if t3, err := db.Begin(ctxBg, verif.IsoLevel(level)); err == nil {
+			add("tx3-set", nil, t3.Set(ctxBg, key+"-cm", v1))
+			t3.Commit(dead)
+			t3.Commit(ctxBg) // ErrTxNotFound inline (the first attempt went through), nil over gRPC
+			b, err = t3.Get(ctxBg, key+"-cm")
+			add("tx3-get-after-commit", b, err)
+			b, err = db.Get(ctxBg, key+"-cm")
+			add("get-committed-on-retry", b, err)
 		}
 		b, err = db.Get(ctxBg, key)
 		add("get-committed", b, err)
